@@ -492,6 +492,33 @@ func init() {
 			ctx.RunCase("udp-seq", "Q", scenario("udp-seq", ops, 65000), seqInput{ops}, nil)
 		}
 		ctx.Res.Note("udp-seq: all %d^%d sequences over the %d-operation menu", len(menu), depth, len(menu))
+		// long histories of few operations: one client under its key and under another listed key,
+		// a second client, a reply, a pause longer than the timeout
+		dm := []udpx.Op{{K: "S", C: 0, Key: 0, T: 1, N: 20}, {K: "S", C: 0, Key: 1, T: 1, N: 15}, {K: "S", C: 1, Key: 1, T: 2, N: 14}, {K: "R", C: 0, T: 1, N: 16}, {K: "A", D: natTimeout + time.Minute}}
+		dd := 5
+		if ctx.Tier == "thorough" {
+			dd = 7
+		}
+		dtotal := int64(1)
+		for i := 0; i < dd; i++ {
+			dtotal *= int64(len(dm))
+		}
+		for code := int64(0); code < dtotal; code++ {
+			if !ctx.Mine(code) {
+				continue
+			}
+			if ctx.Expired() {
+				ctx.Incomplete("udp-seq-deep", "udp-seq-deep: time cap hit at sequence %d of %d", code, dtotal)
+				break
+			}
+			ops := make([]udpx.Op, dd)
+			c := code
+			for i := 0; i < dd; i++ {
+				ops[i] = dm[c%int64(len(dm))]
+				c /= int64(len(dm))
+			}
+			ctx.RunCase("udp-seq-deep", "Q", scenario("udp-seq-deep", ops, 65000), seqInput{ops}, nil)
+		}
 	})
 	hk.Replayers["C03"] = func(ctx *engine.Ctx, rp engine.Replay) []*engine.Finding {
 		if len(rp.Unit) > 17 && rp.Unit[:17] == "udp-two-listeners" {
